@@ -28,7 +28,7 @@ RULE = ('cases = (pass-through function, table, arguments, target kind); seeded 
         'Non-trivial: the table has >= 2 data rows. Distinct = SHA-1 of the case.')
 ASSUMPTIONS = ['tee targets: MemorySource and plain file paths', 'a tee is compared with to* only after it was iterated to the end']
 FNS = ['teecsv', 'teetsv', 'teepickle', 'teetext', 'teehtml', 'progress', 'log_progress', 'clock', 'cache', 'wrap']
-REQUIRED = ['progress-under-a-clock-that-does-not-advance', 'cache-cleared-while-a-pass-is-part-way', 'teetext:repeated-field-name-in-the-template', 'field-names-that-are-not-strings', 'table-without-any-row', 'header-without-fields', 'explicit-csv-dialect'] + ['fn:' + f for f in FNS] + ['tee-bytes-compared', 'ragged-table', 'header-only-table', 'write_header=False', 'file-target', 'memory-target',
+REQUIRED = ['progress-under-a-clock-that-does-not-advance', 'progress-default-batchsize-over-several-batches', 'cache-cleared-while-a-pass-is-part-way', 'teetext:repeated-field-name-in-the-template', 'field-names-that-are-not-strings', 'table-without-any-row', 'header-without-fields', 'explicit-csv-dialect'] + ['fn:' + f for f in FNS] + ['tee-bytes-compared', 'ragged-table', 'header-only-table', 'write_header=False', 'file-target', 'memory-target',
                                          'cache-limited', 'non-utf8-encoding', 'cache-interleaved-iterators']
 TEXT = ['', 'a', 'b c', 'x,y', 'q"q', "it's", 'é', '€', 'l1\nl2', 'cr\rlf', 'tab\there', '<b>&amp;</b>', ' pad ', '1', '2.5', 'None']
 MIXED = TEXT + [None, 0, 1, -3, 2.5, True, gen.D(2020, 1, 1), (1, 2), b'by']
@@ -36,6 +36,11 @@ MIXED = TEXT + [None, 0, 1, -3, 2.5, True, gen.D(2020, 1, 1), (1, 2), b'by']
 
 def cases(ctx):
     rng = ctx.rng('cases')
+    # the default batch size (1000 rows) over tables that end just before, at and after a batch boundary
+    for fn in ('progress', 'log_progress'):
+        for n in (999, 1000, 1001, 2000, 2500):
+            for clock in ('real', 'frozen'):
+                yield {'fn': fn, 'table': [['f0', 'f1']] + [[i, 'v%d' % (i % 7)] for i in range(n)], 'target': 'memory', 'batchsize': None, 'prefix': '', 'clock': clock}
     for i in range(ctx.pick(30000, 400000)):
         fn = FNS[i % len(FNS)]
         nf = rng.randint(1, 3)
@@ -117,14 +122,17 @@ def _enc_ok(v, enc):
 
 
 def _judge_progress(case, ctx, fn, table, sink, same_rows, out):
+    bs = (case['batchsize'],) if case['batchsize'] is not None else ()      # () = the documented default of 1000 rows
+    if not bs:
+        ctx.seen('progress-default-batchsize-over-several-batches')
     if fn == 'progress':
-        v = petl.progress(table, case['batchsize'], prefix=case['prefix'], out=sink)
+        v = petl.progress(table, *bs, prefix=case['prefix'], out=sink)
     else:
         lg = logging.getLogger('petlmon.c16')
         lg.propagate = False
         lg.handlers = [logging.StreamHandler(sink)]
         lg.setLevel(logging.INFO)
-        v = petl.log_progress(table, case['batchsize'], prefix=case['prefix'], logger=lg)
+        v = petl.log_progress(table, *bs, prefix=case['prefix'], logger=lg)
     for p in (1, 2):
         same_rows(util.attempt_rows(lambda: v), 'pass%d' % p)
     ctx.seen('progress-messages', len(sink.getvalue().splitlines()))
